@@ -43,7 +43,7 @@ func loadGen(dir string) (*Gen, error) {
 	prog, spkgs := ssautil.AllPackages(pkgs, ssa.GlobalDebug|ssa.BareInits)
 	prog.Build()
 	g := &Gen{prog: prog, pkgs: pkgs, spkgs: spkgs, mod: modulePath, typeTags: map[string]int{}, tagNames: map[int]string{},
-		heapSorts: map[string]string{}, fieldTags: map[string]int{}, ann: newAnnotations(), impls: map[string][]*ssa.Function{}}
+		heapSorts: map[string]string{}, fieldTags: map[string]int{}, ann: newAnnotations(), impls: map[string][]*ssa.Function{}, ifaceImplCache: map[*ssa.Function][]ifaceImpl{}}
 	// all functions of the module (incl. closures), deterministic order
 	fns := ssautil.AllFunctions(prog)
 	for f := range fns {
@@ -67,9 +67,9 @@ func (g *Gen) translate(fn *ssa.Function) (t *fnTrans, err error) {
 	c := newFnCtx()
 	t = &fnTrans{g: g, fn: fn, key: g.fnKey(fn), c: c, h: &HeapReg{c: c, sorts: map[string]string{}},
 		vals: map[ssa.Value][]string{}, locs: map[ssa.Value]*loc{}, out: map[*ssa.BasicBlock]*State{},
-		edge: map[[2]int]string{}, names: map[string][]ssa.Value{}, local: map[ssa.Value]bool{},
+		edge: map[[2]int]string{}, names: map[string][]nameRef{}, local: map[ssa.Value]bool{},
 		closures: map[ssa.Value]*ssa.MakeClosure{}, sites: map[ssa.Instruction]string{}, siteState: map[string]*State{},
-		uncontracted: map[string]bool{}, rangeOf: map[ssa.Value]*ssa.Range{}, stable: map[ssa.Value]string{}}
+		uncontracted: map[string]bool{}, rangeOf: map[ssa.Value]*ssa.Range{}, stable: map[ssa.Value]string{}, ghostVals: map[string]sval{}, usedContracts: map[string]bool{}}
 	t.contract = g.contractOf(fn)
 	defer func() {
 		if r := recover(); r != nil {
@@ -205,9 +205,6 @@ func cmdSweep(args []string) {
 		fmt.Fprintln(os.Stderr, err)
 		os.Exit(2)
 	}
-	for _, e := range g.ann.errs {
-		fmt.Println("ANNOTATION-ERROR:", e)
-	}
 	var kinds map[string]bool
 	if *kindsF != "" {
 		kinds = map[string]bool{}
@@ -220,6 +217,9 @@ func cmdSweep(args []string) {
 		re = regexp.MustCompile(*funcF)
 	}
 	res := g.runAll(re, kinds, *to, nil)
+	for _, e := range g.ann.errs {
+		fmt.Println("ANNOTATION-ERROR:", e)
+	}
 	for _, e := range res.errs {
 		fmt.Println("ERROR:", e)
 	}
@@ -308,7 +308,3 @@ func cmdDump(args []string) {
 	}
 }
 
-func cmdCheck(args []string) {
-	fmt.Println("not implemented yet")
-	os.Exit(2)
-}
